@@ -569,4 +569,279 @@ theorem setAddress_inv (sel : Mdl → Bool) (hs : SelStatic sel) (s : Sys) (hI :
       exact ⟨requestAddress_length _ _ _ _, requestAddress_inner_length _ _ _ _,
              requestAddress_length _ _ _ _, requestAddress_inner_length _ _ _ _⟩
 
+/-! ### From the flat permutation to the function `(model, variable, device) ↦ address` -/
+
+theorem flatMap_nodup_inj {α β : Type} (f : α → List β) (l : List α) (h : (l.flatMap f).Nodup) :
+    ∀ (i j : Nat) (a b : α), l[i]? = some a → l[j]? = some b → ∀ x, x ∈ f a → x ∈ f b → i = j := by
+  induction l with
+  | nil => intro i j a b hi; simp at hi
+  | cons c cs ih =>
+    intro i j a b hi hj x hx hy
+    rw [List.flatMap_cons, List.nodup_append] at h
+    obtain ⟨_, h2, h3⟩ := h
+    have inr : ∀ (k : Nat) (d : α), cs[k]? = some d → x ∈ f d → x ∈ cs.flatMap f := by
+      intro k d hk hd
+      exact List.mem_flatMap.mpr ⟨d, List.mem_of_getElem? hk, hd⟩
+    cases i with
+    | zero =>
+      cases j with
+      | zero => rfl
+      | succ j' =>
+        simp only [List.getElem?_cons_zero, Option.some.injEq] at hi
+        simp only [List.getElem?_cons_succ] at hj
+        subst hi
+        exact absurd rfl (h3 x hx x (inr j' b hj hy))
+    | succ i' =>
+      cases j with
+      | zero =>
+        simp only [List.getElem?_cons_zero, Option.some.injEq] at hj
+        simp only [List.getElem?_cons_succ] at hi
+        subst hj
+        exact absurd rfl (h3 x hy x (inr i' a hi hx))
+      | succ j' =>
+        simp only [List.getElem?_cons_succ] at hi hj
+        rw [ih h2 i' j' a b hi hj x hx hy]
+
+theorem flatMap_nodup_part {α β : Type} (f : α → List β) (l : List α) (h : (l.flatMap f).Nodup) (a : α)
+    (ha : a ∈ l) : (f a).Nodup := (List.nodup_flatMap.mp h).1 a ha
+
+theorem getElem?_nodup_inj {l : List Nat} (h : l.Nodup) {i j : Nat} {a : Nat} (hi : l[i]? = some a)
+    (hj : l[j]? = some a) : i = j := by
+  obtain ⟨hi', e1⟩ := List.getElem?_eq_some_iff.mp hi
+  obtain ⟨hj', e2⟩ := List.getElem?_eq_some_iff.mp hj
+  exact (List.Nodup.getElem_inj_iff h).mp (e1.trans e2.symm)
+
+/-- injectivity of the address map, from `Nodup` of the flat view -/
+theorem xAddr_inj (ms : List Mdl) (h : (xAddrs ms).Nodup) (mi vi di mi' vi' di' a : Nat)
+    (h1 : xAddr ms mi vi di = some a) (h2 : xAddr ms mi' vi' di' = some a) : mi = mi' ∧ vi = vi' ∧ di = di' := by
+  unfold xAddr at h1 h2
+  simp only [Option.bind_eq_some_iff] at h1 h2
+  obtain ⟨m, hm, l, hl, ha⟩ := h1
+  obtain ⟨m', hm', l', hl', ha'⟩ := h2
+  have mem1 : a ∈ m.xa.flatten := List.mem_flatten.mpr ⟨l, List.mem_of_getElem? hl, List.mem_of_getElem? ha⟩
+  have mem2 : a ∈ m'.xa.flatten := List.mem_flatten.mpr ⟨l', List.mem_of_getElem? hl', List.mem_of_getElem? ha'⟩
+  unfold xAddrs at h
+  have e1 : mi = mi' := flatMap_nodup_inj (fun m : Mdl => m.xa.flatten) ms h mi mi' m m' hm hm' a mem1 mem2
+  subst e1
+  rw [hm] at hm'; cases hm'
+  have hn : (m.xa.flatMap id).Nodup := by
+    have := flatMap_nodup_part (fun m : Mdl => m.xa.flatten) ms h m (List.mem_of_getElem? hm)
+    rw [List.flatMap_id]; exact this
+  have e2 : vi = vi' := flatMap_nodup_inj id m.xa hn vi vi' l l' hl hl' a (List.mem_of_getElem? ha)
+    (List.mem_of_getElem? ha')
+  subst e2
+  rw [hl] at hl'; cases hl'
+  have hl_nd : l.Nodup := flatMap_nodup_part id m.xa hn l (List.mem_of_getElem? hl)
+  exact ⟨rfl, rfl, getElem?_nodup_inj hl_nd ha ha'⟩
+
+theorem yAddr_inj (ms : List Mdl) (h : (yAddrs ms).Nodup) (mi vi di mi' vi' di' a : Nat)
+    (h1 : yAddr ms mi vi di = some a) (h2 : yAddr ms mi' vi' di' = some a) : mi = mi' ∧ vi = vi' ∧ di = di' := by
+  unfold yAddr at h1 h2
+  simp only [Option.bind_eq_some_iff] at h1 h2
+  obtain ⟨m, hm, l, hl, ha⟩ := h1
+  obtain ⟨m', hm', l', hl', ha'⟩ := h2
+  have mem1 : a ∈ m.ya.flatten := List.mem_flatten.mpr ⟨l, List.mem_of_getElem? hl, List.mem_of_getElem? ha⟩
+  have mem2 : a ∈ m'.ya.flatten := List.mem_flatten.mpr ⟨l', List.mem_of_getElem? hl', List.mem_of_getElem? ha'⟩
+  unfold yAddrs at h
+  have e1 : mi = mi' := flatMap_nodup_inj (fun m : Mdl => m.ya.flatten) ms h mi mi' m m' hm hm' a mem1 mem2
+  subst e1
+  rw [hm] at hm'; cases hm'
+  have hn : (m.ya.flatMap id).Nodup := by
+    have := flatMap_nodup_part (fun m : Mdl => m.ya.flatten) ms h m (List.mem_of_getElem? hm)
+    rw [List.flatMap_id]; exact this
+  have e2 : vi = vi' := flatMap_nodup_inj id m.ya hn vi vi' l l' hl hl' a (List.mem_of_getElem? ha)
+    (List.mem_of_getElem? ha')
+  subst e2
+  rw [hl] at hl'; cases hl'
+  have hl_nd : l.Nodup := flatMap_nodup_part id m.ya hn l (List.mem_of_getElem? hl)
+  exact ⟨rfl, rfl, getElem?_nodup_inj hl_nd ha ha'⟩
+
+theorem xAddr_of_mem (ms : List Mdl) (a : Nat) (h : a ∈ xAddrs ms) : ∃ mi vi di, xAddr ms mi vi di = some a := by
+  unfold xAddrs at h
+  obtain ⟨m, hm, ha⟩ := List.mem_flatMap.mp h
+  obtain ⟨l, hl, hal⟩ := List.mem_flatten.mp ha
+  obtain ⟨mi, hmi⟩ := List.mem_iff_getElem?.mp hm
+  obtain ⟨vi, hvi⟩ := List.mem_iff_getElem?.mp hl
+  obtain ⟨di, hdi⟩ := List.mem_iff_getElem?.mp hal
+  exact ⟨mi, vi, di, by simp [xAddr, hmi, hvi, hdi]⟩
+
+theorem yAddr_of_mem (ms : List Mdl) (a : Nat) (h : a ∈ yAddrs ms) : ∃ mi vi di, yAddr ms mi vi di = some a := by
+  unfold yAddrs at h
+  obtain ⟨m, hm, ha⟩ := List.mem_flatMap.mp h
+  obtain ⟨l, hl, hal⟩ := List.mem_flatten.mp ha
+  obtain ⟨mi, hmi⟩ := List.mem_iff_getElem?.mp hm
+  obtain ⟨vi, hvi⟩ := List.mem_iff_getElem?.mp hl
+  obtain ⟨di, hdi⟩ := List.mem_iff_getElem?.mp hal
+  exact ⟨mi, vi, di, by simp [yAddr, hmi, hvi, hdi]⟩
+
+theorem mem_of_xAddr (ms : List Mdl) (mi vi di a : Nat) (h : xAddr ms mi vi di = some a) : a ∈ xAddrs ms := by
+  unfold xAddr at h
+  simp only [Option.bind_eq_some_iff] at h
+  obtain ⟨m, hm, l, hl, ha⟩ := h
+  exact List.mem_flatMap.mpr ⟨m, List.mem_of_getElem? hm,
+    List.mem_flatten.mpr ⟨l, List.mem_of_getElem? hl, List.mem_of_getElem? ha⟩⟩
+
+theorem mem_of_yAddr (ms : List Mdl) (mi vi di a : Nat) (h : yAddr ms mi vi di = some a) : a ∈ yAddrs ms := by
+  unfold yAddr at h
+  simp only [Option.bind_eq_some_iff] at h
+  obtain ⟨m, hm, l, hl, ha⟩ := h
+  exact List.mem_flatMap.mpr ⟨m, List.mem_of_getElem? hm,
+    List.mem_flatten.mpr ⟨l, List.mem_of_getElem? hl, List.mem_of_getElem? ha⟩⟩
+
+/-! ### Names -/
+
+theorem writeNames_cons (names : List String) (kv : Nat × String) (kvs : List (Nat × String)) :
+    writeNames names (kv :: kvs) = writeNames (names.set kv.1 kv.2) kvs := rfl
+
+theorem writeNames_length (kvs : List (Nat × String)) : ∀ names, (writeNames names kvs).length = names.length := by
+  induction kvs with
+  | nil => intro names; rfl
+  | cons kv kvs ih => intro names; rw [writeNames_cons, ih]; simp
+
+theorem writeNames_other (kvs : List (Nat × String)) : ∀ (names : List String) (a : Nat),
+    a ∉ kvs.map (·.1) → (writeNames names kvs)[a]? = names[a]? := by
+  induction kvs with
+  | nil => intro names a _; rfl
+  | cons kv kvs ih =>
+    intro names a h
+    simp only [List.map_cons, List.mem_cons, not_or] at h
+    rw [writeNames_cons, ih _ a h.2, List.getElem?_set]
+    simp [Ne.symm h.1]
+
+/-- every written pair is there afterwards, provided no address is written twice -/
+theorem writeNames_get (kvs : List (Nat × String)) : ∀ (names : List String), (kvs.map (·.1)).Nodup →
+    ∀ kv ∈ kvs, kv.1 < names.length → (writeNames names kvs)[kv.1]? = some kv.2 := by
+  induction kvs with
+  | nil => intro names _ kv h; simp at h
+  | cons kv0 kvs ih =>
+    intro names hnd kv hkv hlt
+    simp only [List.map_cons, List.nodup_cons] at hnd
+    rw [writeNames_cons]
+    rcases List.mem_cons.mp hkv with h | h
+    · subst h
+      rw [writeNames_other kvs _ _ hnd.1, List.getElem?_set]
+      simp [hlt]
+    · exact ih _ hnd.2 kv h (by simpa using hlt)
+
+theorem zip_map_snd_sublist {α β : Type} : ∀ (l1 : List α) (l2 : List β), ((l1.zip l2).map Prod.snd).Sublist l2 := by
+  intro l1
+  induction l1 with
+  | nil => intro l2; simp
+  | cons a l1 ih =>
+    intro l2
+    cases l2 with
+    | nil => simp
+    | cons b l2 => simp only [List.zip_cons_cons, List.map_cons]; exact (ih l2).cons₂ b
+
+theorem slotsOfVars_keys_sublist (mdl : String) (idx : List Idx) : ∀ (vars : List String) (as : List (List Nat)),
+    ((slotsOfVars mdl idx vars as).map Prod.fst).Sublist as.flatten := by
+  intro vars
+  induction vars with
+  | nil => intro as; simp [slotsOfVars]
+  | cons v vars ih =>
+    intro as
+    cases as with
+    | nil => simp [slotsOfVars]
+    | cons a as =>
+      unfold slotsOfVars
+      simp only [List.zip_cons_cons, List.flatMap_cons, List.map_append, List.flatten_cons]
+      apply List.Sublist.append
+      · have : List.map Prod.fst (List.map (fun ia : Idx × Nat => (ia.2, slotName v mdl ia.1)) (idx.zip a)) =
+            (idx.zip a).map Prod.snd := by simp
+        rw [this]; exact zip_map_snd_sublist idx a
+      · exact ih as
+
+theorem modelSlots_keys_sublist (sel : Mdl → Bool) (ms : List Mdl) :
+    (((ms.filter sel).flatMap Mdl.xSlots).map Prod.fst).Sublist (xAddrs ms) := by
+  induction ms with
+  | nil => simp [xAddrs]
+  | cons m ms ih =>
+    rw [xAddrs_cons, List.filter_cons]
+    split_ifs
+    · simp only [List.flatMap_cons, List.map_append]
+      exact List.Sublist.append (slotsOfVars_keys_sublist _ _ _ _) ih
+    · exact ih.trans (List.sublist_append_right _ _)
+
+theorem modelSlots_keys_sublist_y (sel : Mdl → Bool) (ms : List Mdl) :
+    (((ms.filter sel).flatMap Mdl.ySlots).map Prod.fst).Sublist (yAddrs ms) := by
+  induction ms with
+  | nil => simp [yAddrs]
+  | cons m ms ih =>
+    rw [yAddrs_cons, List.filter_cons]
+    split_ifs
+    · simp only [List.flatMap_cons, List.map_append]
+      exact List.Sublist.append (slotsOfVars_keys_sublist _ _ _ _) ih
+    · exact ih.trans (List.sublist_append_right _ _)
+
+/-! ### Links -/
+
+theorem uidOf_get (l : List Idx) (i : Idx) : ∀ u, uidOf l i = some u → l[u]? = some i := by
+  induction l with
+  | nil => intro u h; simp [uidOf] at h
+  | cons j rest ih =>
+    intro u h
+    unfold uidOf at h
+    split_ifs at h with hj
+    · cases h; simp [hj]
+    · simp only [Option.map_eq_some_iff] at h
+      obtain ⟨u', hu', rfl⟩ := h
+      simpa using ih u' hu'
+
+theorem uidOf_of_get (l : List Idx) (hnd : l.Nodup) (i : Idx) : ∀ u, l[u]? = some i → uidOf l i = some u := by
+  induction l with
+  | nil => intro u h; simp at h
+  | cons j rest ih =>
+    intro u h
+    rw [List.nodup_cons] at hnd
+    unfold uidOf
+    cases u with
+    | zero => simp at h; simp [h]
+    | succ u' =>
+      simp only [List.getElem?_cons_succ] at h
+      have hne : j ≠ i := by
+        intro e; subst e; exact hnd.1 (List.mem_of_getElem? h)
+      simp [hne, ih hnd.2 u' h]
+
+theorem mapM_get {α β : Type} (f : α → Option β) : ∀ (l : List α) (r : List β), l.mapM f = some r →
+    ∀ (j : Nat) (x : α), l[j]? = some x → ∃ y, r[j]? = some y ∧ f x = some y := by
+  intro l
+  induction l with
+  | nil => intro r _ j x hx; simp at hx
+  | cons a l ih =>
+    intro r h j x hx
+    rw [List.mapM_cons] at h
+    cases hfa : f a with
+    | none => rw [hfa] at h; simp at h
+    | some y0 =>
+      rw [hfa] at h
+      cases hl : l.mapM f with
+      | none => rw [hl] at h; simp at h
+      | some r0 =>
+        rw [hl] at h
+        simp at h
+        subst h
+        cases j with
+        | zero => simp at hx; subst hx; exact ⟨y0, by simp, hfa⟩
+        | succ j' =>
+          simp only [List.getElem?_cons_succ] at hx ⊢
+          exact ih r0 hl j' x hx
+
+theorem mapM_length {α β : Type} (f : α → Option β) : ∀ (l : List α) (r : List β), l.mapM f = some r →
+    r.length = l.length := by
+  intro l
+  induction l with
+  | nil => intro r h; simp at h; subst h; rfl
+  | cons a l ih =>
+    intro r h
+    rw [List.mapM_cons] at h
+    cases hfa : f a with
+    | none => rw [hfa] at h; simp at h
+    | some y0 =>
+      rw [hfa] at h
+      cases hl : l.mapM f with
+      | none => rw [hl] at h; simp at h
+      | some r0 =>
+        rw [hl] at h; simp at h; subst h
+        simp [ih r0 hl]
+
 end Andes.Address
